@@ -49,8 +49,11 @@ pub(crate) fn coerce_variable_values(
             )?;
             coerced_values.insert(key.clone(), value);
         } else if let Some(default) = &variable_def.default_value {
-            let value =
-                graphql_value_to_json(&format_args!("default value of variable {name}"), default)?;
+            let description = format_args!("default value of variable {name}");
+            let value = graphql_value_to_json(&description, default)?;
+            // The default value is coerced to the declared type like a provided value is:
+            // single items are wrapped in lists, defaults of input object fields are filled in.
+            let value = coerce_variable_value(schema, &description, &variable_def.ty, &value)?;
             coerced_values.insert(name, value);
         } else if variable_def.ty.is_non_null() {
             return Err(InputCoercionError::ValueError {
